@@ -36,6 +36,7 @@ CONSTANTS ColNames,    \* sequence of column names; the i-th declared column is 
           ItemCols,    \* column lists an item may name (sequences over ColNames)
           MaxItems,
           Refs,        \* reference ids usable by REFERENCES / FOREIGN KEY
+          CheckIds,    \* check expression ids usable by table-level CHECK
           Variant,     \* "shipped" | fold defects kept as negative controls
           WithHist
 
@@ -155,8 +156,8 @@ Close ==
 NoItem == [k |-> "none", cn |-> "", cs |-> <<>>, r |-> NoRef, e |-> "none", pos |-> 0]
 Items == {[NoItem EXCEPT !.k = k, !.cs = cs] : k \in ItemKinds \cap {"pk", "uniq"}, cs \in ItemCols}
     \cup {[NoItem EXCEPT !.k = k, !.cs = cs, !.cn = IF k = "cpk" THEN "k1" ELSE "k4"] : k \in ItemKinds \cap {"cpk", "cuniq"}, cs \in ItemCols}
-    \cup {[NoItem EXCEPT !.k = "check", !.e = e] : e \in (IF "check" \in ItemKinds THEN {"e1", "e2"} ELSE {})}
-    \cup {[NoItem EXCEPT !.k = "ccheck", !.e = "e1", !.cn = "k2"] : x \in (IF "ccheck" \in ItemKinds THEN {1} ELSE {})}
+    \cup {[NoItem EXCEPT !.k = "check", !.e = e] : e \in (IF "check" \in ItemKinds THEN CheckIds ELSE {})}
+    \cup {[NoItem EXCEPT !.k = "ccheck", !.e = e, !.cn = "k2"] : e \in (IF "ccheck" \in ItemKinds THEN CheckIds ELSE {})}
     \cup {[NoItem EXCEPT !.k = "fk", !.cs = cs, !.r = r] : cs \in (IF "fk" \in ItemKinds THEN ItemCols ELSE {}), r \in Refs}
     \cup {[NoItem EXCEPT !.k = "cfk", !.cs = cs, !.r = r, !.cn = "k3"] : cs \in (IF "cfk" \in ItemKinds THEN ItemCols ELSE {}), r \in Refs}
 
